@@ -50,6 +50,7 @@ enum Head {
     Ty(String),
 }
 
+pub static PINNED_NAMES: std::sync::OnceLock<serde_json::Map<String, serde_json::Value>> = std::sync::OnceLock::new();
 pub static LENIENT: std::sync::atomic::AtomicBool = std::sync::atomic::AtomicBool::new(false);
 thread_local! { pub static LOST: std::cell::RefCell<Vec<String>> = std::cell::RefCell::new(vec![]); }
 /// strict mode: exit 2.  lenient mode (second attempt of the driver): the annotation is dropped
@@ -1345,8 +1346,102 @@ fn replace_splices(mut s: String, splices: &[String]) -> String {
     s
 }
 
-pub fn emit_fn(idx: &Index, fs: &FnSpec, tags: &[String], debug_view: bool, start_line: usize, stats: &mut BTreeMap<String, usize>) -> (String, serde_json::Value) {
-    let src = idx.lookup_fn(&fs.key, &fs.file);
+/// names a function binds, in source order: parameters, then every identifier bound by a `let`
+/// (closure parameters and loop patterns are not included)
+pub fn bound_names(text: &str) -> Option<(Vec<String>, Vec<String>)> {
+    let (sig, block) = parse_any_fn(text)?;
+    let mut params = vec![];
+    for inp in sig.inputs.iter() {
+        if let FnArg::Typed(pt) = inp {
+            let mut v = PatNames(vec![]);
+            visit::Visit::visit_pat(&mut v, &pt.pat);
+            params.extend(v.0);
+        }
+    }
+    struct Lets(Vec<String>);
+    impl<'ast> visit::Visit<'ast> for Lets {
+        fn visit_local(&mut self, l: &'ast Local) {
+            let mut v = PatNames(vec![]);
+            visit::Visit::visit_pat(&mut v, &l.pat);
+            self.0.extend(v.0);
+            visit::visit_local(self, l);
+        }
+    }
+    let mut lets = Lets(vec![]);
+    if let Some(b) = &block {
+        visit::Visit::visit_block(&mut lets, b);
+    }
+    Some((params, lets.0))
+}
+struct PatNames(Vec<String>);
+impl<'ast> visit::Visit<'ast> for PatNames {
+    fn visit_pat_ident(&mut self, p: &'ast PatIdent) {
+        self.0.push(p.ident.to_string());
+        visit::visit_pat_ident(self, p);
+    }
+}
+
+/// E0: the contract of a function mentions its parameters and locals by name.  `contracts/pinned_names.json`
+/// records, per function, the names it bound when the contract was written; if the current body binds
+/// the same NUMBER of names in the same positions but some are spelled differently, those locals were
+/// renamed: the annotations are carried over to the new names (whole-word substitution).  Any other
+/// difference leaves the contract as written (and a missing name is then a lost anchor).
+pub fn renamed_spec(fs: &FnSpec, text: &str, pinned: Option<&serde_json::Value>, stats: &mut BTreeMap<String, usize>) -> FnSpec {
+    let pinned = match pinned { Some(p) => p, None => return fs.clone() };
+    let (cp, cl) = match bound_names(text) { Some(x) => x, None => return fs.clone() };
+    let get = |k: &str| -> Vec<String> { pinned.get(k).and_then(|v| v.as_array()).map(|a| a.iter().filter_map(|x| x.as_str().map(|s| s.to_string())).collect()).unwrap_or_default() };
+    let (pp, pl) = (get("params"), get("lets"));
+    if pp.len() != cp.len() || pl.len() != cl.len() { return fs.clone(); }
+    let mut map: BTreeMap<String, String> = BTreeMap::new();
+    for (o, n) in pp.iter().zip(cp.iter()).chain(pl.iter().zip(cl.iter())) {
+        if o != n {
+            if let Some(prev) = map.get(o) { if prev != n { return fs.clone(); } }
+            map.insert(o.clone(), n.clone());
+        }
+    }
+    if map.is_empty() { return fs.clone(); }
+    // a new name must not be an old name that is still in use under its old meaning
+    let still: BTreeSet<&String> = pp.iter().chain(pl.iter()).filter(|o| !map.contains_key(*o)).collect();
+    if map.values().any(|n| still.contains(n)) { return fs.clone(); }
+    *stats.entry("E0.renamed_local".to_string()).or_insert(0) += map.len();
+    let sub = |t: &str| -> String {
+        // whole-word, simultaneous substitution
+        let mut out = String::new();
+        let cs: Vec<char> = t.chars().collect();
+        let mut i = 0;
+        while i < cs.len() {
+            if cs[i].is_alphabetic() || cs[i] == '_' {
+                let mut j = i;
+                while j < cs.len() && (cs[j].is_alphanumeric() || cs[j] == '_') { j += 1; }
+                let w: String = cs[i..j].iter().collect();
+                let field = i > 0 && cs[i - 1] == '.';
+                match map.get(&w) { Some(n) if !field => out.push_str(n), _ => out.push_str(&w) }
+                i = j;
+            } else { out.push(cs[i]); i += 1; }
+        }
+        out
+    };
+    let mut f = fs.clone();
+    for c in f.reqs.iter_mut().chain(f.enss.iter_mut()) { c.text = sub(&c.text); }
+    for (_, lp) in f.loops.iter_mut() {
+        for c in lp.invs.iter_mut() { c.text = sub(&c.text); }
+        if let Some(d) = &lp.dec { lp.dec = Some(sub(d)); }
+    }
+    for (_, cl) in f.closures.iter_mut() {
+        for r in cl.reqs.iter_mut() { *r = sub(r); }
+        for (_, e) in cl.enss.iter_mut() { *e = sub(e); }
+    }
+    for (w, _, t) in f.hints.iter_mut() { *w = sub(w); *t = sub(t); }
+    for (_, from, to) in f.patches.iter_mut() { *from = sub(from); *to = sub(to); }
+    for (n, _) in f.annots.iter_mut() { *n = sub(n); }
+    for n in f.u64_names.iter_mut() { *n = sub(n); }
+    f
+}
+
+pub fn emit_fn(idx: &Index, fs0: &FnSpec, tags: &[String], debug_view: bool, start_line: usize, stats: &mut BTreeMap<String, usize>) -> (String, serde_json::Value) {
+    let src = idx.lookup_fn(&fs0.key, &fs0.file);
+    let renamed = renamed_spec(fs0, &src.text, PINNED_NAMES.get().and_then(|m| m.get(&fs0.key)), stats);
+    let fs = &renamed;
     let text = apply_patches(&src, fs, stats);
     let (mut sig, block) = parse_any_fn(&text).unwrap_or_else(|| die(&format!("cannot parse function {} after patches", fs.key)));
     let mut block = block.unwrap_or_else(|| die(&format!("function {} has no body", fs.key)));
